@@ -428,10 +428,17 @@ def _nexus_matrix_block(draw, labels, label_texts, ntax_declared_before, fancy, 
         else:
             out += "  ;\n"
     else:
+        # sequential layouts: free (blanks / breaks anywhere) or wrapped (every row continued on further lines after
+        # a fixed number of characters, as alignment programs write long sequences)
+        wrap = draw(st.integers(1, nchar - 1)) if nchar >= 2 and draw(st.integers(0, 2)) == 0 else None
         for r in order:
-            out += "    " + label_texts[r] + draw(st.sampled_from([" ", "  ", "\t", "\n      "])) + \
-                   draw(_seq_text(texts[r], data_type, gaps=fancy, breaks=("\n      ", "\n", "\n  ", " [c] "))) + \
-                   draw(st.sampled_from(["\n", "\n", " ", "\n\n"]))
+            out += "    " + label_texts[r] + draw(st.sampled_from([" ", "  ", "\t", "\n      "]))
+            if wrap:
+                pieces = [texts[r][k:k + wrap] for k in range(0, nchar, wrap)]
+                out += "\n      ".join((" " if data_type == "continuous" else "").join(p) for p in pieces)
+            else:
+                out += draw(_seq_text(texts[r], data_type, gaps=fancy, breaks=("\n      ", "\n", "\n  ", " [c] ")))
+            out += draw(st.sampled_from(["\n", "\n", " ", "\n\n"]))
         out += draw(st.sampled_from(["  ;\n", ";\n", "\n;"]))
     out += draw(st.sampled_from([kw("END"), kw("END"), kw("ENDBLOCK")])) + draw(_opt_ws(fancy)) + ";\n"
     content = {"data_type": data_type, "ntax": ntax, "nchar": nchar, "title": _denote(title), "interleaved": interleaved,
